@@ -127,6 +127,11 @@ func (f *ruleFactory) CreateRule(version, srcID string, ruleConfig config2.Rule)
 		return nil, err
 	}
 
+	// the request's host has to satisfy one of the configured host expressions, not all of them
+	if hosts, ok := hm.(compositeMatcher); ok {
+		hm = alternativesMatcher(hosts)
+	}
+
 	sm := schemeMatcher(ruleConfig.Matcher.Scheme)
 
 	for _, rc := range ruleConfig.Matcher.Routes {
